@@ -1,6 +1,6 @@
 """Syntactic side check for C05/C04: the current action lives in exactly one place, the ContextVar `_ACTION_CONTEXT` of eliot/_action.py,
 which is bound once and only ever used through .get/.set/.reset; no thread-local or global statement carries context in
-_action.py / _generators.py."""
+_action.py / _generators.py; the per-instance token slot `_parent_token` is driven by `with` only (see below)."""
 import ast, os, sys
 REPO = os.environ.get("PYVC_REPO", "/repo")
 bad = []
@@ -27,6 +27,19 @@ for fn in sorted(os.listdir(os.path.join(REPO, "eliot"))):
                 bad.append("%s:%d global statement" % (fn, n.lineno))
             if isinstance(n, ast.Attribute) and n.attr == "local" and isinstance(n.value, ast.Name) and n.value.id == "threading":
                 bad.append("%s:%d threading.local" % (fn, n.lineno))
+# Token discipline behind the rely "application code run inside a block does not disturb the block's context token" (C04): the only
+# per-instance token slot, Action._parent_token, is written in Action.__enter__ / Action.__exit__ alone, and no Eliot function calls
+# __enter__ / __exit__ explicitly (they are reached through `with` only) -- so context() and run() keep their tokens in locals, and
+# entering the same action again through them cannot clobber the token of an enclosing `with` (seeded change C04-4 breaks exactly this).
+for cls_ in [n for n in tree.body if isinstance(n, ast.ClassDef)]:
+    for f in [n for n in cls_.body if isinstance(n, ast.FunctionDef)]:
+        for n in ast.walk(f):
+            if isinstance(n, ast.Attribute) and n.attr == "_parent_token" and isinstance(n.ctx, (ast.Store, ast.Del)):
+                if not (cls_.name == "Action" and f.name in ("__init__", "__enter__", "__exit__")):
+                    bad.append("_action.py:%d %s.%s stores _parent_token (only Action.__enter__/__exit__ may)" % (n.lineno, cls_.name, f.name))
+for n in ast.walk(tree):
+    if isinstance(n, ast.Call) and isinstance(n.func, ast.Attribute) and n.func.attr in ("__enter__", "__exit__"):
+        bad.append("_action.py:%d explicit call of %s (an action's token slot must only be driven by `with`)" % (n.lineno, n.func.attr))
 cur = [n for n in tree.body if isinstance(n, ast.FunctionDef) and n.name == "current_action"]
 if not cur or "_ACTION_CONTEXT.get" not in ast.unparse(cur[0]):
     bad.append("current_action() does not read _ACTION_CONTEXT")
